@@ -165,7 +165,40 @@ def h_simple_append(data_len: int, old_foot: int, o0: int, r0: int, b0: int, r1:
 
 
 def replay_h_simple_append(**kw):
-    return None, "no concrete driver"
+    """real single-file appends over files whose last chunk is compressed / expanded by the codec / plain"""
+    import shutil, tempfile
+    import numpy as np
+    import pandas as pd
+    import fastparquet
+    d = tempfile.mkdtemp(prefix="c07-")
+    try:
+        rng = np.random.RandomState(0)
+        for comp, vals in (("GZIP", rng.rand(6)), (None, np.arange(50.0)), ("GZIP", np.zeros(3000)),
+                           ("SNAPPY", rng.rand(5))):
+            fn = os.path.join(d, "t-%s-%d.parq" % (comp, len(vals)))
+            df = pd.DataFrame({"x": vals})
+            fastparquet.write(fn, df, compression=comp)
+            raw = open(fn, "rb").read()
+            flen = int.from_bytes(raw[-8:-4], "little")
+            data_end = len(raw) - 8 - flen
+            new = pd.DataFrame({"x": np.arange(7.0)})
+            fastparquet.write(fn, new, append=True, compression=comp)
+            raw2 = open(fn, "rb").read()
+            if raw2[:data_end] != raw[:data_end]:
+                return True, "append changed bytes of the existing row group (codec %s, %d rows)" % (comp, len(vals))
+            try:
+                out = fastparquet.ParquetFile(fn).to_pandas()
+            except Exception as ex:
+                return True, "file unreadable after append (codec %s): %s" % (comp, type(ex).__name__)
+            if list(out["x"]) != list(vals) + list(new["x"]):
+                return True, "rows after append differ (codec %s)" % comp
+            from vf.pyshim import filecheck
+            probs = filecheck.validate(fn)
+            if probs:
+                return True, "file inconsistent after append (codec %s): %s" % (comp, probs[0])
+        return False, "appends land at the old footer position"
+    finally:
+        shutil.rmtree(d, ignore_errors=True)
 
 
 # ------------------------------------------------- C18: rejected write leaves the old file intact ---
@@ -393,7 +426,11 @@ def h_multi_append(n_old: int, r0: int, b0: int, r1: int, b1: int, nfr: int, f0:
     rows = sum(10 + i for i in ids) + sum(fr.rows for fr in frames)
     # the _metadata footer (first footer written in the metadata phase) was serialised from old ++ new
     meta_snaps = [s for s in SNAP[0] if s[2] == "d/_metadata"]
-    return (paths == want_paths and meta_snaps == [(want, rows, "d/_metadata")] and fmd.num_rows == rows)
+    # every new part file ends in a footer that describes that file alone: its one row group and its row count
+    part_snaps = [s for s in SNAP[0] if s[2] not in META]
+    want_parts = [([fr.tag], fr.rows, p) for fr, p in zip(frames, new_parts)]
+    return (paths == want_paths and meta_snaps == [(want, rows, "d/_metadata")] and fmd.num_rows == rows and
+            part_snaps == want_parts)
 
 
 def replay_h_multi_append(n_old, r0, b0, r1, b1, nfr, **kw):
@@ -417,13 +454,19 @@ def replay_h_multi_append(n_old, r0, b0, r1, b1, nfr, **kw):
         old = fastparquet.ParquetFile(dn).to_pandas()
         before = {p: hashlib.sha1(open(os.path.join(dn, p), "rb").read()).hexdigest()
                   for p in os.listdir(dn) if p.startswith("part.")}
-        new = pd.DataFrame({"a": list(range(1000, 1000 + 2 * nfr))})
+        new = pd.DataFrame({"a": list(range(1000, 1000 + 3 * nfr))})
         if nfr:
-            fastparquet.write(dn, new, file_scheme="hive", append=True, row_group_offsets=list(range(0, 2 * nfr, 2)))
+            fastparquet.write(dn, new, file_scheme="hive", append=True, row_group_offsets=list(range(0, 3 * nfr, 3)))
         for p, h in before.items():
             fp = os.path.join(dn, p)
             if not os.path.exists(fp) or hashlib.sha1(open(fp, "rb").read()).hexdigest() != h:
                 return True, "append to a dataset with part ids %r rewrote the existing data file %s" % (ids, p)
+        from vf.pyshim import filecheck
+        for p in sorted(os.listdir(dn)):
+            if p.startswith("part."):
+                probs = filecheck.validate(os.path.join(dn, p))
+                if probs:
+                    return True, "data file %s written by the append is inconsistent: %s" % (p, "; ".join(probs[:2]))
         try:
             out = fastparquet.ParquetFile(dn).to_pandas()
         except Exception as ex:
@@ -552,3 +595,134 @@ def replay_h_multi_append_fault(n_old, r0, b0, r1, b1, nfr, fail_k):
         return False, "old dataset intact"
     finally:
         shutil.rmtree(d, ignore_errors=True)
+
+
+
+# ------------------------------------------------ C18: up-front rejection of an append with other columns ---
+POOL = ["a", "b", "c"]
+
+
+def h_append_column_check(i0: int, i1: int, i2: int, n: int, simple: bool, part: bool) -> bool:
+    """
+    pre: 0 <= i0 <= 2 and 0 <= i1 <= 2 and 0 <= i2 <= 2 and 0 <= n <= 3
+    post: __return__
+    """
+    # the frame offered to an append names columns POOL[i*] (repeats allowed); the dataset has data columns a, b (and
+    # partition column c when `part`).  Anything but exactly the dataset's columns must be refused before any write.
+    import pandas as pd
+    cols = []
+    for k, i in enumerate((i0, i1, i2)):
+        if k < n:
+            cols.append("a" if i == 0 else ("b" if i == 1 else "c"))      # concrete strings, chosen by forking
+    frame = pd.DataFrame([[0] * len(cols)], columns=list(cols)) if cols else pd.DataFrame()
+    fs = SymFS({"d/_metadata": 50}, -1)
+    pf = _PFShim(_fmd([]), {"c": [1]} if part else {}, fs)
+    pf.columns = ["a", "b"]
+    if simple:
+        pf.file_scheme = "simple"
+    calls = []
+    saved = (writer.write_simple, writer.write_multi)
+    writer.write_simple = lambda *a, **k: calls.append("simple")
+    writer.write_multi = lambda *a, **k: calls.append("multi")
+    raised = False
+    try:
+        try:
+            pf.write_row_groups(frame, open_with=fs.open_with, mkdirs=fs.mkdirs, write_fmd=False)
+        except ValueError:
+            raised = True
+    finally:
+        writer.write_simple, writer.write_multi = saved
+    want = sorted(["a", "b"] + (["c"] if part else []))
+    if sorted(cols) == want:
+        return (not raised) and len(calls) == 1
+    return raised and calls == [] and fs.log == []
+
+
+def replay_h_append_column_check(i0, i1, i2, n, simple, part):
+    import shutil, tempfile
+    import pandas as pd
+    import fastparquet
+    cols = [POOL[i] for i in (i0, i1, i2)][:n]
+    d = tempfile.mkdtemp(prefix="c18-")
+    try:
+        base = pd.DataFrame({"a": [1, 2], "b": [3, 4], "c": [5, 5]})
+        base = base if part else base[["a", "b"]]
+        fn = os.path.join(d, "t.parq" if simple else "ds")
+        if simple and part:
+            return None, "a single file has no partition columns"
+        fastparquet.write(fn, base, file_scheme="simple" if simple else "hive", partition_on=["c"] if part else [])
+        before = fastparquet.ParquetFile(fn).to_pandas()
+        snap = {p: open(os.path.join(dp, p), "rb").read() for dp, _, fs_ in os.walk(d) for p in fs_}
+        frame = pd.DataFrame([[7] * len(cols)], columns=cols) if cols else pd.DataFrame()
+        want = sorted(base.columns)
+        try:
+            fastparquet.write(fn, frame, file_scheme="simple" if simple else "hive", append=True,
+                              partition_on=["c"] if part else [])
+            accepted = True
+        except Exception:
+            accepted = False
+        if sorted(cols) == want:
+            return False, "matching columns"
+        try:
+            after = fastparquet.ParquetFile(fn).to_pandas()
+        except Exception as ex:
+            return True, "append of a frame with columns %r to a dataset with columns %r: the dataset is no longer " \
+                         "readable (%s)" % (cols, want, type(ex).__name__)
+        if accepted or not after.equals(before):
+            return True, "append of a frame with columns %r to a dataset with columns %r was %s and the content " \
+                         "changed" % (cols, want, "accepted" if accepted else "refused")
+        return False, "refused, dataset intact"
+    finally:
+        shutil.rmtree(d, ignore_errors=True)
+
+
+
+def h_append_other_columns_simple(i0: int, i1: int, i2: int, n: int, old_foot: int, foot: int) -> bool:
+    """
+    pre: 0 <= i0 <= 2 and 0 <= i1 <= 2 and 0 <= i2 <= 2 and 0 <= n <= 3 and 1 <= old_foot <= foot < LIM
+    post: __return__
+    """
+    # single-file dataset with columns a, b; a frame naming any columns (repeats allowed) is appended through the real
+    # write_row_groups -> write_simple -> make_row_group (only write_column is a stub).  Either the frame has exactly
+    # the dataset's columns and the append succeeds, or the call raises and the existing bytes are intact.
+    import pandas as pd
+    cols = []
+    for k, i in enumerate((i0, i1, i2)):
+        if k < n:
+            cols.append("a" if i == 0 else ("b" if i == 1 else "c"))
+    frame = pd.DataFrame([[0] * len(cols)], columns=list(cols)) if cols else pd.DataFrame({"z": []})
+    size = 100 + old_foot + 8
+    f = SymFile(size)
+    schema = [parquet_thrift.SchemaElement(name="schema", num_children=2),
+              parquet_thrift.SchemaElement(name="a", type=2, repetition_type=1),
+              parquet_thrift.SchemaElement(name="b", type=2, repetition_type=1)]
+    fmd = parquet_thrift.FileMetaData(version=1, schema=schema, num_rows=5, row_groups=[_rg(5, 99)],
+                                      key_value_metadata=[], created_by="x")
+    fs = SymFS({}, -1)
+    pf = _PFShim(fmd, {}, fs)
+    pf.columns, pf.file_scheme, pf.fn = ["a", "b"], "simple", f
+    FOOT[0], SNAP[0] = [foot], []
+    _Struct.old_footer[0] = old_foot
+    saved = (writer.struct, writer.write_thrift, writer.write_column)
+
+    def write_column(fobj, coldata, column, compression=None, stats=True):
+        fobj.write(Seg("column", 10))
+        md = parquet_thrift.ColumnMetaData(type=2, path_in_schema=[column.name], num_values=len(coldata),
+                                           total_uncompressed_size=10)
+        return parquet_thrift.ColumnChunk(meta_data=md, file_offset=0)
+    writer.struct, writer.write_thrift, writer.write_column = _Struct, _s_write_thrift, write_column
+    raised = False
+    try:
+        try:
+            pf.write_row_groups(frame, open_with=None)
+        except Exception:
+            raised = True
+    finally:
+        writer.struct, writer.write_thrift, writer.write_column = saved
+    if raised:
+        return _old_content_intact(f, size, 100)
+    return sorted(cols) == ["a", "b"]
+
+
+def replay_h_append_other_columns_simple(i0, i1, i2, n, old_foot, foot):
+    return replay_h_append_column_check(i0, i1, i2, n, True, False)
